@@ -47,6 +47,44 @@ def pack_enum(k, pack):
     return packs
 
 
+def switch_skeletons(pack):
+    """Exhaustive: every 3-way choice over a pool of alternative shapes that matter to the -switch rewrite
+    (nullable heads, nested choices with a nullable last alternative, lookahead-first, ranges, repetitions,
+    rule references, captures, actions)."""
+    X = 0   # placeholder for the shared rule, patched below
+    def pool(x):
+        return [
+            ('seq', [('chr', 'a'), ('chr', 'q')]),
+            ('seq', [('rng', 'b', 'c'), ('chr', 'q')]),
+            ('seq', [('alt', [('chr', 'd'), ('q', ('chr', 'e'))], False), ('chr', 'f')]),
+            ('seq', [('q', ('chr', 'g')), ('chr', 'h')]),
+            ('seq', [('and', ('chr', 'i')), ('chr', 'i')]),
+            ('seq', [('not', ('chr', 'j')), ('dot',)]),
+            ('seq', [('star', ('chr', 'k')), ('chr', 'l')]),
+            ('seq', [('alt', [('chr', 'm'), ('chr', 'n')], False), ('chr', 'o')]),
+            ('seq', [('name', x), ('chr', 'z')]),
+            ('plus', ('chr', 'p')),
+            ('cap', ('chr', 'r')),
+            ('seq', [('act', 0), ('chr', 's')]),
+        ]
+    n = len(pool(0))
+    combos = [(a, b, c) for a in range(n) for b in range(n) for c in range(n)]
+    packs = []
+    for i in range(0, len(combos), pack):
+        chunk = combos[i:i + pack]
+        x = len(chunk) + 1
+        P = pool(x)
+        rules = [('alt', [('name', j + 1) for j in range(len(chunk))], False)]
+        for (a, b, c) in chunk:
+            rules.append(('alt', [P[a], P[b], P[c]], False))
+        rules.append(('alt', [('chr', 'x'), ('q', ('chr', 'y'))], False))
+        packs.append(GG.EnumG(rules))
+    return packs
+
+
+SKEL_INPUTS = ['', 'aq', 'bq', 'cq', 'df', 'ef', 'f', 'gh', 'h', 'i', 'ii', 'x', 'jx', 'kl', 'kkl', 'l', 'mo', 'no', 'xz', 'yz', 'z', 'p', 'pp', 'r', 's', 'aqx', 'q', 'e']
+
+
 def grammars(tier, seed, name='core'):
     cfg = THOROUGH if tier == 'thorough' else QUICK
     out = []
@@ -55,6 +93,8 @@ def grammars(tier, seed, name='core'):
             out.append(('w%d' % i, GG.gen_grammar(seed, i, 'switch'), 'switchshape'))
         for i in range(cfg['random'] // 2):
             out.append(('r%d' % i, GG.gen_grammar(seed, i, 'core'), 'random'))
+        for i, g in enumerate(switch_skeletons(144)):
+            out.append(('k%d' % i, g, 'skeleton'))
         return out
     for i in range(cfg['random']):
         out.append(('r%d' % i, GG.gen_grammar(seed, i, 'core'), 'random'))
@@ -92,6 +132,8 @@ def run_sweep(T, tier, seed, optsets, name='core'):
         text = g.text()
         for o in optsets:
             if kind == 'enum' and 'i' in o:
+                continue
+            if kind == 'skeleton' and o in ('', 'n') and False:
                 continue      # every packed rule has one reference: -inline would inline them all
             rid = '%s_%s' % (gid, o or 'd')
             reqs.append({'id': rid, 'text': text, 'opts': o, 'tree': True, 'compile': True, 'ir': True, 'src': True})
@@ -136,7 +178,7 @@ def run_sweep(T, tier, seed, optsets, name='core'):
         if x.get('irError') or not x.get('ir'):
             res['emit_diffs'].append({'id': r['id'], 'opts': r['opts'], 'text': meta[r['id']][4], 'diff': 'irx: %s' % x.get('irError')})
             continue
-        d = L.ir_diff(x['ir'], model[r['id']])
+        d = L.ir_diff(x['ir'], model[r['id']]) or L.header_diff(x['ir']['header'], model[r['id']].get('header'), r['opts'])
         if d:
             res['emit_diffs'].append({'id': r['id'], 'opts': r['opts'], 'text': meta[r['id']][4], 'diff': d})
     stats['t_emit_s'] = round(time.time() - t_start, 1)
@@ -161,7 +203,7 @@ def run_sweep(T, tier, seed, optsets, name='core'):
             continue
         gid, g, kind, o, text = meta[rid]
         if gid not in inputs_of:
-            inputs_of[gid] = enum_inputs() if kind == 'enum' else g.inputs()
+            inputs_of[gid] = enum_inputs() if kind == 'enum' else (SKEL_INPUTS if kind == 'skeleton' else g.inputs())
         inputs = inputs_of[gid]
         x = realby[rid]
         names = x['ir']['header']['ruleNames']
@@ -170,9 +212,9 @@ def run_sweep(T, tier, seed, optsets, name='core'):
             e = 'R%d' % ei
             if e not in names or x['ir']['rules'][names.index(e)].get('nil'):
                 continue
-            if kind == 'enum' and ei == 0:
+            if kind in ('enum', 'skeleton') and ei == 0:
                 continue
-            ins = inputs if (ei == 0 or kind == 'enum') else inputs[:20]
+            ins = inputs if (ei == 0 or kind in ('enum', 'skeleton')) else inputs[:20]
             for memo in ([True, False] if 'n' not in o else [True]):
                 for ii, s in enumerate(ins):
                     k = '%s|%s|%d|%d' % (rid, e, 1 if memo else 0, ii)
